@@ -1293,6 +1293,10 @@ class Engine:
                 return Num(term, taint=tt)
             if rs == B:
                 return BoolV(term, taint=tt)
+            if rs == V and not (rty.startswith('seq:') or rty.startswith('arr:')) and self.hooks and hasattr(self.hooks, 'after_pure'):
+                res_ = Obj(term, cls=rty[4:] or None, taint=tt)
+                self.hooks.after_pure(self, st, key, res_, recv, args)
+                return res_
             if rty.startswith('seq:') or rty.startswith('arr:'):
                 cache = self.__dict__.setdefault('_pure_seq', {})
                 kk = term.sexpr()
@@ -1301,6 +1305,14 @@ class Engine:
                     cache[kk] = self.typed(rty, 'ret_%s!%d' % (key.strip('.').replace('.', '_'), self.counter), taint=tt)
                 return cache[kk]
             return Obj(term, cls=rty[4:] or None, taint=tt)
+        # mutator declared in the contract: the receiver variable is rebound to a fresh object
+        if recv is not None and key in self.c.get('mutators', {}) and isinstance(node.func, ast.Attribute):
+            new = Obj(self.fresh('after_' + mname, V), cls=getattr(recv, 'cls', None), taint=tt, ghost=getattr(recv, 'ghost', None))
+            fn = self.c['mutators'][key]
+            if callable(fn):
+                fn(self, st, recv, args, new, node)
+            self.rebind(st, node.func.value, new)
+            return Const(None)
         # havoc
         self.note('havoc: %s' % (mname if recv is None else '<obj>.' + mname))
         return Obj(self.fresh('havoc_' + mname.split('.')[-1], V), taint=tt)
@@ -1451,6 +1463,9 @@ class Engine:
                     return BoolV(TRUE)
                 if isinstance(a, (Num, Tup, BoolV, Const)) or hasattr(a, '_at'):
                     return BoolV(FALSE)
+            if name == 'assigned' and len(args) == 2 and isinstance(args[0], Obj) and isinstance(args[1], Const):
+                # spec function: was this attribute assigned on the current path?
+                return BoolV(z3.BoolVal((str(args[0].t), args[1].v) in st.fields))
             if name == 'public' and len(args) == 1:
                 return BoolV(z3.Not(args[0].taint))
             if name == 'range':
